@@ -500,6 +500,90 @@ func init() {
 		if !sawApply {
 			panic("C11: applyOptions not found in vm/vm.go")
 		}
+		// control facts of object/: who writes a builtin's `module` field (what `__module__` shows), and
+		// what Module.Override does besides storing into the module's own tables
+		var builtinModuleAssigns, overrideCalls, overrideWrites []string
+		sawOverride := false
+		for _, f := range c11ParseDir(fset, filepath.Join(repo, "object")) {
+			for _, d := range f.Decls {
+				fd, ok := d.(*ast.FuncDecl)
+				if !ok || fd.Body == nil {
+					continue
+				}
+				fname := fd.Name.Name
+				recvName, recvType := "", ""
+				if fd.Recv != nil && len(fd.Recv.List) == 1 {
+					if len(fd.Recv.List[0].Names) == 1 {
+						recvName = fd.Recv.List[0].Names[0].Name
+					}
+					t := fd.Recv.List[0].Type
+					if st, ok := t.(*ast.StarExpr); ok {
+						t = st.X
+					}
+					if id, ok := t.(*ast.Ident); ok {
+						recvType = id.Name
+						fname = id.Name + "." + fname
+					}
+				}
+				seen := map[string]bool{}
+				ast.Inspect(fd.Body, func(n ast.Node) bool {
+					switch x := n.(type) {
+					case *ast.AssignStmt:
+						for _, l := range x.Lhs {
+							if se, ok := l.(*ast.SelectorExpr); ok && se.Sel.Name == "module" && !seen[fname] {
+								seen[fname] = true
+								builtinModuleAssigns = append(builtinModuleAssigns, fname)
+							}
+						}
+					case *ast.CompositeLit:
+						if id, ok := x.Type.(*ast.Ident); ok && id.Name == "Builtin" {
+							for _, el := range x.Elts {
+								if kv, ok := el.(*ast.KeyValueExpr); ok {
+									if kid, ok := kv.Key.(*ast.Ident); ok && kid.Name == "module" && !seen[fname+":new"] {
+										seen[fname+":new"] = true
+										builtinModuleAssigns = append(builtinModuleAssigns, fname+":new")
+									}
+								}
+							}
+						}
+					}
+					return true
+				})
+				if recvType == "Module" && fd.Name.Name == "Override" {
+					sawOverride = true
+					overrideWrites = writeForms(fd, recvName)
+					cs := map[string]bool{}
+					ast.Inspect(fd.Body, func(n ast.Node) bool {
+						if c, ok := n.(*ast.CallExpr); ok {
+							if se, ok := c.Fun.(*ast.SelectorExpr); ok {
+								if id, ok := se.X.(*ast.Ident); ok && id.Name == recvName {
+									cs[se.Sel.Name] = true
+								}
+							}
+							// the receiver handed to another function
+							for _, a := range c.Args {
+								if id, ok := a.(*ast.Ident); ok && id.Name == recvName && recvName != "" {
+									if fid, ok := c.Fun.(*ast.Ident); ok {
+										cs[fid.Name+"(recv)"] = true
+									} else if se, ok := c.Fun.(*ast.SelectorExpr); ok {
+										cs[se.Sel.Name+"(recv)"] = true
+									}
+								}
+							}
+						}
+						return true
+					})
+					for k := range cs {
+						overrideCalls = append(overrideCalls, k)
+					}
+				}
+			}
+		}
+		if !sawOverride {
+			panic("C11: Module.Override not found in object/")
+		}
+		sort.Strings(builtinModuleAssigns)
+		sort.Strings(overrideCalls)
 		s := "namespace Risor.Generated.C11\n\n"
 		s += "/-- attribute names: GetAttr `case` strings (" + strconv.Itoa(len(caseNames)) + ") and string map keys (" + strconv.Itoa(len(keyNames)) + ") of " + strings.Join(dirs, ", ") + " -/\n"
 		s += "def attrUniverse : List String := " + c11StrList(universe) + "\n\n"
@@ -513,6 +597,9 @@ func init() {
 		s += "/-- the VirtualMachine fields vm.WithGlobals writes -/\ndef vmWithGlobalsWrites : List String := " + c11StrList(vmWithGlobalsWrites) + "\n\n"
 		s += "/-- applyOptions converts ALL of inputGlobals into vm.globals unconditionally on every call -/\ndef vmConvertsAlways : Bool := " + strconv.FormatBool(convertsAlways) + "\n\n"
 		s += "/-- resetForNewCode assigns vm.modules -/\ndef vmResetClearsModules : Bool := " + strconv.FormatBool(resetClearsModules) + "\n\n"
+		s += "/-- every function of package object that assigns a `module` field (`x.module = …`; `:new` = sets it in a Builtin composite literal, i.e. on a fresh object) -/\ndef builtinModuleAssigns : List String := " + c11StrList(builtinModuleAssigns) + "\n\n"
+		s += "/-- Module.Override: the receiver's fields its body writes (`f[]` = a store through the field) -/\ndef overrideWrites : List String := " + c11StrList(overrideWrites) + "\n\n"
+		s += "/-- Module.Override: methods it calls on its receiver, functions it hands its receiver to -/\ndef overrideCalls : List String := " + c11StrList(overrideCalls) + "\n\n"
 		s += "end Risor.Generated.C11\n"
 		return s
 	}})
